@@ -5,11 +5,14 @@
 // skip) with or without an override for revocation (relaxing or tightening), alone or next to
 // overrides of other types; validator-level errors of every kind (plain, wrapping context /
 // deadline / timeout errors, typed revocation errors, empty messages, typed nil pointers) under
-// live, cancelled and expired caller contexts.
+// live, cancelled and expired caller contexts; supplied objects whose dynamic type offers more than the interface they
+// were supplied as; long-lived verifiers holding several statements (OCI and blob documents, namesakes across the
+// documents) with a declared history of earlier calls, through Verify and VerifyBlob.
 package c05
 
 import (
 	"context"
+	"crypto"
 	"crypto/x509"
 	"encoding/json"
 	"errors"
@@ -79,6 +82,40 @@ type Input struct {
 	// the caller supplied BOTH the context-aware validator and the deprecated client (iface = validator):
 	// the context-aware one decides, the deprecated client is not consulted (ignored by the model)
 	BothSupplied bool `json:"bothSupplied"`
+	// the entry point of the observed call: "oci" (verifier.Verify), "blob" (verifier.VerifyBlob under the blob
+	// statement picked by name), "blobGlobal" (VerifyBlob under the global blob statement, no name given). Level,
+	// RevOverride and OtherOverrides are those of the statement applicable to that call (ignored by the model:
+	// both entry points share processSignature)
+	Entry string `json:"entry"`
+	// the OTHER statements the same verifier holds, "<doc>/<rel>/<level>/<override>": doc = oci | blob; rel = same |
+	// other (its name equals / differs from the applicable statement's name - "same" only in the other document:
+	// names are unique per document) with the suffix Wild (registry scope "*" / the global blob statement);
+	// level and override ("-" = none) say what it does about revocation (ignored by the model)
+	Companions []string `json:"companions"`
+	// calls made on the same verifier before the observed one: "c<k>" Verify / VerifyBlob under companion k,
+	// "self" the observed call's own form (validator answering all OK), "skip:self" / "skip:c<k>" SkipVerify for
+	// the artifact the OCI statement applies to (ignored by the model: a verifier keeps no state)
+	History []string `json:"history"`
+	// what else the dynamic type of the supplied validator / client can do: "" nothing; "allOK" | "allRevoked" |
+	// "error": it ALSO has the method of the other interface (a deprecated client embedding a context-aware
+	// validator: ValidateContext promoted; a context-aware validator that kept its old Validate), answering so
+	// (ignored by the model: the object is consulted through the interface it was supplied as)
+	ExtraMethod string `json:"extraMethod"`
+	// a timestamping validator (answering all OK) was supplied as well (ignored by the model)
+	TimestampingSupplied bool `json:"timestampingSupplied"`
+}
+
+// fill puts the defaults of the later dimensions
+func (in *Input) fill() {
+	if in.Entry == "" {
+		in.Entry = "oci"
+	}
+	if in.Companions == nil {
+		in.Companions = []string{}
+	}
+	if in.History == nil {
+		in.History = []string{}
+	}
 }
 
 type Obs struct {
@@ -103,6 +140,8 @@ type world struct {
 	// configuration (a fresh one for every seventh case as control)
 	verifiers map[string]*liveVerifier
 	uses      int
+	// failures of OTHER validation types seen after a declared history (none on a verifier that keeps no state)
+	strayFailures int
 	// stock validator mode: how the OCSP responder of certificate k behaves in the current case, and what
 	// the stock validator reported
 	behave      []string
@@ -140,6 +179,59 @@ func (c clientView) Validate(certChain []*x509.Certificate, signingTime time.Tim
 		HasSigningTime: !signingTime.IsZero(), SigningTime: signingTime, Interface: "client"})
 	c.r.mu.Unlock()
 	return c.r.Results(nil, certChain, signingTime)
+}
+
+// extraAnswer is what the method the caller did NOT register the object for would answer
+func extraAnswer(kind string, chain []*x509.Certificate) ([]*revresult.CertRevocationResult, error) {
+	switch kind {
+	case "allOK":
+		return common.UniformResults(revresult.ResultOK)(chain)
+	case "allRevoked":
+		return common.UniformResults(revresult.ResultRevoked)(chain)
+	case "error":
+		return nil, errors.New("the embedded validator failed")
+	}
+	panic("c05: unknown extra method " + kind)
+}
+
+// dualClient is supplied as the deprecated RevocationClient; its dynamic type also has ValidateContext (what a
+// struct embedding a stock revocation.Validator and overriding Validate looks like)
+type dualClient struct {
+	clientView
+	extra string
+}
+
+func (d dualClient) ValidateContext(_ context.Context, opts revocation.ValidateContextOptions) ([]*revresult.CertRevocationResult, error) {
+	d.r.mu.Lock()
+	d.r.Calls = append(d.r.Calls, common.RevCall{ChainLen: len(opts.CertChain), Chain: opts.CertChain,
+		HasSigningTime: !opts.AuthenticSigningTime.IsZero(), SigningTime: opts.AuthenticSigningTime, Interface: "validator"})
+	d.r.mu.Unlock()
+	return extraAnswer(d.extra, opts.CertChain)
+}
+
+// dualValidator is supplied as the context-aware validator; its dynamic type also has the deprecated Validate
+type dualValidator struct {
+	*scripted
+	extra string
+}
+
+func (d dualValidator) Validate(certChain []*x509.Certificate, signingTime time.Time) ([]*revresult.CertRevocationResult, error) {
+	d.mu.Lock()
+	d.Calls = append(d.Calls, common.RevCall{ChainLen: len(certChain), Chain: certChain,
+		HasSigningTime: !signingTime.IsZero(), SigningTime: signingTime, Interface: "client"})
+	d.mu.Unlock()
+	return extraAnswer(d.extra, certChain)
+}
+
+// tsDecoy is a timestamping validator that waves everything through; being asked about the signing chain is logged
+// under an interface name of its own
+type tsDecoy struct{ r *scripted }
+
+func (d tsDecoy) ValidateContext(_ context.Context, opts revocation.ValidateContextOptions) ([]*revresult.CertRevocationResult, error) {
+	d.r.mu.Lock()
+	d.r.Calls = append(d.r.Calls, common.RevCall{ChainLen: len(opts.CertChain), Chain: opts.CertChain, Interface: "timestamping"})
+	d.r.mu.Unlock()
+	return common.UniformResults(revresult.ResultOK)(opts.CertChain)
 }
 
 /* ---- the kinds of validator-level errors ---- */
@@ -403,42 +495,176 @@ func overridesOf(in Input) map[trustpolicy.ValidationType]trustpolicy.Validation
 	return ov
 }
 
-// policyDoc builds the trust policy document of a case: in code, or from the JSON text of the statement
-func policyDoc(in Input, storeType string) *trustpolicy.OCIDocument {
-	ov := overridesOf(in)
-	if in.PolicyForm != "json" {
-		p := trustpolicy.OCITrustPolicy{Name: "c05", RegistryScopes: []string{"*"},
-			SignatureVerification: trustpolicy.SignatureVerification{VerificationLevel: in.Level, Override: ov}}
-		if in.Level != "skip" {
-			// (a statement that skips verification must not name trust stores or identities)
-			p.TrustStores, p.TrustedIdentities = []string{storeType + ":c05"}, []string{"*"}
-		}
-		return &trustpolicy.OCIDocument{Version: "1.0", TrustPolicies: []trustpolicy.OCITrustPolicy{p}}
+// statement is one trust policy statement of a verifier's documents
+type statement struct {
+	doc   string // "oci" | "blob"
+	name  string
+	wild  bool   // oci: registry scope "*"; blob: the global statement
+	scope string // oci, when not wild: the one repository it applies to
+	level string
+	ov    map[trustpolicy.ValidationType]trustpolicy.ValidationAction
+	self  bool
+}
+
+const selfName, selfRepo = "c05", "reg.example/c05"
+
+func entryDoc(entry string) string {
+	if entry == "blob" || entry == "blobGlobal" {
+		return "blob"
 	}
-	sv := fmt.Sprintf(`{"level":%q`, in.Level)
-	if ov != nil {
+	return "oci"
+}
+
+// statementsOf lists the applicable statement (first) and the companions of a case
+func statementsOf(in Input) []statement {
+	self := statement{doc: entryDoc(in.Entry), name: selfName, scope: selfRepo, level: in.Level, ov: overridesOf(in), self: true}
+	self.wild = in.Entry == "blobGlobal"
+	if self.doc == "oci" {
+		// alone in its document the statement has the scope "*" (as in every earlier round); next to others, its own repository
+		self.wild = true
+		for _, c := range in.Companions {
+			if strings.HasPrefix(c, "oci/") {
+				self.wild = false
+			}
+		}
+	}
+	out := []statement{self}
+	for k, c := range in.Companions {
+		f := strings.Split(c, "/")
+		if len(f) != 4 || (f[0] != "oci" && f[0] != "blob") {
+			panic("c05: bad companion " + c)
+		}
+		st := statement{doc: f[0], name: fmt.Sprintf("%s-k%d", selfName, k), scope: fmt.Sprintf("%s-k%d", selfRepo, k), level: f[2]}
+		rel := strings.TrimSuffix(f[1], "Wild")
+		st.wild = rel != f[1]
+		switch rel {
+		case "same":
+			if st.doc == self.doc {
+				panic("c05: statement names are unique within a document: " + c)
+			}
+			st.name = selfName
+		case "other":
+		default:
+			panic("c05: bad companion " + c)
+		}
+		if f[3] != "-" {
+			st.ov = map[trustpolicy.ValidationType]trustpolicy.ValidationAction{trustpolicy.TypeRevocation: trustpolicy.ValidationAction(f[3])}
+		}
+		out = append(out, st)
+	}
+	return out
+}
+
+// signatureVerificationText writes the signatureVerification object the way a user does
+func signatureVerificationText(st statement) string {
+	sv := fmt.Sprintf(`{"level":%q`, st.level)
+	if st.ov != nil {
 		var keys []string
-		for k := range ov {
+		for k := range st.ov {
 			keys = append(keys, string(k))
 		}
 		sort.Strings(keys)
 		var parts []string
 		for _, k := range keys {
-			parts = append(parts, fmt.Sprintf("%q:%q", k, string(ov[trustpolicy.ValidationType(k)])))
+			parts = append(parts, fmt.Sprintf("%q:%q", k, string(st.ov[trustpolicy.ValidationType(k)])))
 		}
 		sv += `,"override":{` + strings.Join(parts, ",") + `}`
 	}
-	sv += "}"
-	trust := fmt.Sprintf(`,"trustStores":[%q],"trustedIdentities":["*"]`, storeType+":c05")
-	if in.Level == "skip" {
-		trust = ""
+	return sv + "}"
+}
+
+// policyDocs builds the trust policy documents of a case (nil when a document has no statement): in code, or
+// from the JSON text of the statements
+func policyDocs(in Input, storeType string) (*trustpolicy.OCIDocument, *trustpolicy.BlobDocument) {
+	var oci *trustpolicy.OCIDocument
+	var blob *trustpolicy.BlobDocument
+	var ociText, blobText []string
+	for _, st := range statementsOf(in) {
+		sv := trustpolicy.SignatureVerification{VerificationLevel: st.level, Override: st.ov}
+		var stores, ids []string
+		trust := ""
+		if st.level != "skip" {
+			// (a statement that skips verification must not name trust stores or identities)
+			stores, ids = []string{storeType + ":c05"}, []string{"*"}
+			trust = fmt.Sprintf(`,"trustStores":[%q],"trustedIdentities":["*"]`, storeType+":c05")
+		}
+		if st.doc == "oci" {
+			scope := st.scope
+			if st.wild {
+				scope = "*"
+			}
+			if oci == nil {
+				oci = &trustpolicy.OCIDocument{Version: "1.0"}
+			}
+			oci.TrustPolicies = append(oci.TrustPolicies, trustpolicy.OCITrustPolicy{Name: st.name, RegistryScopes: []string{scope},
+				SignatureVerification: sv, TrustStores: stores, TrustedIdentities: ids})
+			ociText = append(ociText, fmt.Sprintf(`{"name":%q,"registryScopes":[%q],"signatureVerification":%s%s}`, st.name, scope, signatureVerificationText(st), trust))
+		} else {
+			if blob == nil {
+				blob = &trustpolicy.BlobDocument{Version: "1.0"}
+			}
+			blob.TrustPolicies = append(blob.TrustPolicies, trustpolicy.BlobTrustPolicy{Name: st.name, SignatureVerification: sv,
+				TrustStores: stores, TrustedIdentities: ids, GlobalPolicy: st.wild})
+			global := ""
+			if st.wild {
+				global = `,"globalPolicy":true`
+			}
+			blobText = append(blobText, fmt.Sprintf(`{"name":%q,"signatureVerification":%s%s%s}`, st.name, signatureVerificationText(st), trust, global))
+		}
 	}
-	text := fmt.Sprintf(`{"version":"1.0","trustPolicies":[{"name":"c05","registryScopes":["*"],"signatureVerification":%s%s}]}`, sv, trust)
-	doc := &trustpolicy.OCIDocument{}
-	if err := json.Unmarshal([]byte(text), doc); err != nil {
-		panic(fmt.Sprintf("c05: policy text %s: %v", text, err))
+	if in.PolicyForm != "json" {
+		return oci, blob
 	}
-	return doc
+	if oci != nil {
+		text := `{"version":"1.0","trustPolicies":[` + strings.Join(ociText, ",") + `]}`
+		oci = &trustpolicy.OCIDocument{}
+		if err := json.Unmarshal([]byte(text), oci); err != nil {
+			panic(fmt.Sprintf("c05: policy text %s: %v", text, err))
+		}
+	}
+	if blob != nil {
+		text := `{"version":"1.0","trustPolicies":[` + strings.Join(blobText, ",") + `]}`
+		blob = &trustpolicy.BlobDocument{}
+		if err := json.Unmarshal([]byte(text), blob); err != nil {
+			panic(fmt.Sprintf("c05: policy text %s: %v", text, err))
+		}
+	}
+	return oci, blob
+}
+
+// the blob every blob signature of this package signs
+var blobContent = []byte("c05 blob content")
+
+var digestOf = map[crypto.Hash]digest.Algorithm{crypto.SHA256: digest.SHA256, crypto.SHA384: digest.SHA384, crypto.SHA512: digest.SHA512}
+
+func blobDescriptor(alg digest.Algorithm) (ocispec.Descriptor, error) {
+	return ocispec.Descriptor{MediaType: "application/octet-stream", Digest: alg.FromBytes(blobContent), Size: int64(len(blobContent))}, nil
+}
+
+// callUnder makes one call on the verifier under a statement: Verify of an artifact the OCI statement applies to,
+// VerifyBlob under the blob statement (by name, or as the global one)
+func callUnder(ctx context.Context, v notation.Verifier, st statement, ociEnv, blobEnv func() []byte, format string) (*notation.VerificationOutcome, error) {
+	if st.doc == "oci" {
+		return v.Verify(ctx, target, ociEnv(), notation.VerifierVerifyOptions{ArtifactReference: artifactOf(st), SignatureMediaType: format})
+	}
+	name := st.name
+	if st.wild {
+		name = ""
+	}
+	return v.(notation.BlobVerifier).VerifyBlob(ctx, blobDescriptor, blobEnv(), notation.BlobVerifierVerifyOptions{SignatureMediaType: format, TrustPolicyName: name})
+}
+
+// artifactOf is a reference the OCI statement applies to
+func artifactOf(st statement) string {
+	repo := st.scope
+	if st.wild && !st.self {
+		repo = selfRepo + "-any" // no statement names this repository: the wildcard statement applies
+	}
+	return repo + "@" + target.Digest.String()
+}
+
+type verifySkipper interface {
+	SkipVerify(ctx context.Context, opts notation.VerifierVerifyOptions) (bool, *trustpolicy.VerificationLevel, error)
 }
 
 // callerContext is the context handed to Verify
@@ -536,8 +762,8 @@ func (w *world) chain(n int, variant string) *common.Chain {
 	return c
 }
 
-func (w *world) env(n int, scheme, format string, plugin bool, variant string) []byte {
-	k := fmt.Sprint(n, scheme, format, plugin, variant)
+func (w *world) env(n int, scheme, format string, plugin bool, variant string, blob bool) []byte {
+	k := fmt.Sprint(n, scheme, format, plugin, variant, blob)
 	if b, ok := w.envs[k]; ok {
 		return b
 	}
@@ -547,6 +773,15 @@ func (w *world) env(n int, scheme, format string, plugin bool, variant string) [
 	}
 	o := common.EnvOpts{Format: format, Chain: w.chain(n, variant), Target: &target, Scheme: scheme, ExtAttrs: attrs,
 		SigningTime: time.Now().Add(-time.Hour).Truncate(time.Second)}
+	if blob {
+		// a blob signature: the payload names the blob's descriptor under the digest algorithm of the signing key
+		ks, err := signature.ExtractKeySpec(o.Chain.Leaf().Cert)
+		if err != nil {
+			panic(err)
+		}
+		d, _ := blobDescriptor(digestOf[ks.SignatureAlgorithm().Hash()])
+		o.Target = &d
+	}
 	switch variant {
 	case "expiredSigLogged":
 		o.SigningTime = time.Now().Add(-3 * time.Hour).Truncate(time.Second)
@@ -572,7 +807,9 @@ func runCase(w *world, in Input, format string) Obs {
 	if in.Scheme == "signingAuthority" {
 		scheme, storeType = common.SchemeAuthority, "signingAuthority"
 	}
-	env := w.env(n, scheme, format, in.IdentityPlugin, in.Variant)
+	ociEnv := func() []byte { return w.env(n, scheme, format, in.IdentityPlugin, in.Variant, false) }
+	blobEnv := func() []byte { return w.env(n, scheme, format, in.IdentityPlugin, in.Variant, true) }
+	stmts := statementsOf(in)
 	results := func(vctx context.Context, c []*x509.Certificate, _ time.Time) ([]*revresult.CertRevocationResult, error) {
 		if in.ValidatorError && !in.ErrorWithResults {
 			return nil, validatorErr(in.ErrorKind, vctx)
@@ -639,15 +876,17 @@ func runCase(w *world, in Input, format string) Obs {
 	if in.RevOverride != nil {
 		rovKey = *in.RevOverride
 	}
-	key := fmt.Sprint(in.ValidatorImpl, n, in.Scheme, in.Iface, in.Level, rovKey, in.OtherOverrides, in.PolicyForm, in.IdentityPlugin, in.DeprecatedCtor, in.Variant, in.BothSupplied)
+	key := fmt.Sprint(in.ValidatorImpl, n, in.Scheme, in.Iface, in.Level, rovKey, in.OtherOverrides, in.PolicyForm, in.IdentityPlugin, in.DeprecatedCtor, in.Variant, in.BothSupplied,
+		in.Entry, in.Companions, in.ExtraMethod, in.TimestampingSupplied)
 	w.uses++
 	lv := w.verifiers[key]
-	if lv == nil || w.uses%7 == 0 {
+	// a case that states its history gets a verifier of its own: the history is then exactly what the input says
+	if lv == nil || w.uses%7 == 0 || len(in.History) > 0 {
 		store := common.NewMemStore()
 		store.Certs[storeType+":c05"] = []*x509.Certificate{chain.Root().Cert}
 		rev := &scripted{}
-		doc := policyDoc(in, storeType)
-		opts := verifier.VerifierOptions{OCITrustPolicy: doc}
+		doc, blobDoc := policyDocs(in, storeType)
+		opts := verifier.VerifierOptions{OCITrustPolicy: doc, BlobTrustPolicy: blobDoc}
 		var mgr *common.ScriptedManager
 		if in.IdentityPlugin {
 			// a plugin that owns the trusted-identity check only and approves the identity
@@ -659,8 +898,14 @@ func runCase(w *world, in Input, format string) Obs {
 			}}}
 			opts.PluginManager = mgr
 		}
+		if in.TimestampingSupplied {
+			opts.RevocationTimestampingValidator = tsDecoy{rev}
+		}
 		if in.Iface == "validator" {
 			opts.RevocationCodeSigningValidator = rev
+			if in.ExtraMethod != "" {
+				opts.RevocationCodeSigningValidator = dualValidator{rev, in.ExtraMethod}
+			}
 			if in.BothSupplied {
 				// a deprecated client that would wave everything through: it must never be the one asked
 				decoy := &common.ScriptedRevocation{Results: common.UniformResults(revresult.ResultOK)}
@@ -668,6 +913,9 @@ func runCase(w *world, in Input, format string) Obs {
 			}
 		} else {
 			opts.RevocationClient = clientView{rev}
+			if in.ExtraMethod != "" {
+				opts.RevocationClient = dualClient{clientView{rev}, in.ExtraMethod}
+			}
 		}
 		var v notation.Verifier
 		var err error
@@ -688,13 +936,36 @@ func runCase(w *world, in Input, format string) Obs {
 		}
 		lv = &liveVerifier{v: v, store: store, rev: rev}
 		w.verifiers[key] = lv
-		if w.uses%2 == 0 {
-			// history: the new verifier has already seen this very chain with a clean bill of health
-			rev.Results = func(_ context.Context, c []*x509.Certificate, _ time.Time) ([]*revresult.CertRevocationResult, error) {
-				return common.UniformResults(revresult.ResultOK)(c)
+		allOK := func(_ context.Context, c []*x509.Certificate, _ time.Time) ([]*revresult.CertRevocationResult, error) {
+			return common.UniformResults(revresult.ResultOK)(c)
+		}
+		if w.uses%2 == 0 && len(in.History) == 0 {
+			// undeclared history: the new verifier has already seen this very chain with a clean bill of health
+			rev.Results = allOK
+			callUnder(context.Background(), v, stmts[0], ociEnv, blobEnv, format)
+		}
+		// the declared history: calls under the companions / the applicable statement, the validator answering all OK
+		for _, h := range in.History {
+			rev.Results = allOK
+			what, skip := strings.CutPrefix(h, "skip:")
+			st := stmts[0]
+			if what != "self" {
+				var k int
+				if _, err := fmt.Sscanf(what, "c%d", &k); err != nil || k < 0 || k+1 >= len(stmts) {
+					panic("c05: bad history item " + h)
+				}
+				st = stmts[k+1]
 			}
-			v.Verify(context.Background(), target, env, notation.VerifierVerifyOptions{
-				ArtifactReference: "reg.example/c05@" + target.Digest.String(), SignatureMediaType: format})
+			if skip {
+				if st.doc != "oci" {
+					panic("c05: SkipVerify is about OCI statements: " + h)
+				}
+				v.(verifySkipper).SkipVerify(context.Background(), notation.VerifierVerifyOptions{ArtifactReference: artifactOf(st), SignatureMediaType: format})
+				continue
+			}
+			if out, err := callUnder(context.Background(), v, st, ociEnv, blobEnv, format); out == nil {
+				panic(fmt.Sprintf("c05: history call %s: %v", h, err))
+			}
 		}
 	}
 	rev := lv.rev
@@ -702,8 +973,7 @@ func runCase(w *world, in Input, format string) Obs {
 	rev.Calls = nil
 	v := lv.v
 	ctx, cancel := callerContext(in.CallerCtx)
-	outcome, verr := v.Verify(ctx, target, env, notation.VerifierVerifyOptions{
-		ArtifactReference: "reg.example/c05@" + target.Digest.String(), SignatureMediaType: format})
+	outcome, verr := callUnder(ctx, v, stmts[0], ociEnv, blobEnv, format)
 	cancel()
 	o := Obs{Outcome: "notPerformed", Accepted: verr == nil, Calls: len(rev.Calls)}
 	if len(rev.Calls) > 0 {
@@ -718,8 +988,9 @@ func runCase(w *world, in Input, format string) Obs {
 		o.ChainLen = &cl
 		st := c.HasSigningTime
 		o.SigningTime = &st
-		iface := c.Interface
-		o.UsedIface = &iface
+		if iface := c.Interface; iface == "validator" || iface == "client" {
+			o.UsedIface = &iface
+		}
 	}
 	if outcome == nil {
 		panic("c05: nil outcome")
@@ -729,6 +1000,12 @@ func runCase(w *world, in Input, format string) Obs {
 			expected := (in.Variant == "expiredSigLogged" && r.Type == trustpolicy.TypeExpiry) ||
 				(in.Variant == "expiredChain" && in.Scheme != "signingAuthority" && r.Type == trustpolicy.TypeAuthenticTimestamp)
 			if r.Error != nil && !expected {
+				if len(in.History) > 0 {
+					// after a declared history this is the implementation's doing, not the generator's (a statement
+					// judged under another statement's level): observed as it is
+					w.strayFailures++
+					continue
+				}
 				panic(fmt.Sprintf("c05: unexpected %s failure: %v", r.Type, r.Error))
 			}
 			if expected && r.Error == nil {
@@ -863,6 +1140,85 @@ func genServers(c *common.Ctx, vec []string) [][]string {
 	return out
 }
 
+var entries = []string{"oci", "blob", "blobGlobal"}
+var extraMethods = []string{"allOK", "allRevoked", "error"}
+
+func ovText(st stmt) string {
+	if st.rev == nil {
+		return "-"
+	}
+	return *st.rev
+}
+
+func otherDoc(doc string) string {
+	if doc == "oci" {
+		return "blob"
+	}
+	return "oci"
+}
+
+// companion writes one companion statement; wild is dropped where the documents' rules forbid it (one wildcard scope,
+// one global blob statement - which cannot have the level skip)
+func companion(in *Input, doc, rel string, wild bool, st stmt) string {
+	for _, c := range in.Companions {
+		if strings.HasPrefix(c, doc+"/") && strings.HasSuffix(strings.Split(c, "/")[1], "Wild") {
+			wild = false
+		}
+	}
+	if doc == "blob" && (in.Entry == "blobGlobal" || st.level == "skip") {
+		wild = false
+	}
+	if wild {
+		rel += "Wild"
+	}
+	return strings.Join([]string{doc, rel, st.level, ovText(st)}, "/")
+}
+
+// withHistory gives a case (whose Entry is set) companions and a history at random: one or two other statements in
+// either document, a namesake in the other document among them half of the time, and up to three earlier calls
+func withHistory(c *common.Ctx, in *Input, all []stmt) {
+	in.Companions = []string{}
+	same := false
+	for k, n := 0, 1+c.Rand.Intn(2); k < n; k++ {
+		doc, rel := []string{"oci", "blob"}[c.Rand.Intn(2)], "other"
+		if doc != entryDoc(in.Entry) && !same && c.Rand.Intn(2) == 0 {
+			rel, same = "same", true
+		}
+		in.Companions = append(in.Companions, companion(in, doc, rel, c.Rand.Intn(3) == 0, all[c.Rand.Intn(len(all))]))
+	}
+	in.History = []string{}
+	for k, n := 0, c.Rand.Intn(4); k < n; k++ {
+		who, isOCI := "self", entryDoc(in.Entry) == "oci"
+		if c.Rand.Intn(3) != 0 {
+			j := c.Rand.Intn(len(in.Companions))
+			who, isOCI = fmt.Sprintf("c%d", j), strings.HasPrefix(in.Companions[j], "oci/")
+		}
+		if isOCI && c.Rand.Intn(4) == 0 {
+			who = "skip:" + who
+		}
+		in.History = append(in.History, who)
+	}
+}
+
+// decorate spreads the later dimensions over the main enumeration: the dynamic type of the supplied object, a
+// timestamping validator next to it, the blob entry points, companions and histories
+func decorate(c *common.Ctx, in *Input, all []stmt) {
+	if c.Rand.Intn(4) == 0 {
+		in.ExtraMethod = extraMethods[c.Rand.Intn(len(extraMethods))]
+	}
+	in.TimestampingSupplied = c.Rand.Intn(8) == 0
+	if c.Rand.Intn(4) == 0 {
+		in.Entry = entries[c.Rand.Intn(len(entries))]
+		if in.Entry == "blobGlobal" && in.Level == "skip" {
+			in.Entry = "blob" // the global blob statement cannot skip verification
+		}
+	}
+	if c.Rand.Intn(5) == 0 {
+		in.fill()
+		withHistory(c, in, all)
+	}
+}
+
 // Run enumerates every vector for n = 1..4 x scheme x interface x statement about revocation (x validator
 // error on a sample), with random method annotations, server errors, error kinds, caller contexts and
 // overrides of other types.
@@ -876,9 +1232,20 @@ func Run(c *common.Ctx) error {
 		byAction[a] = append(byAction[a], st)
 	}
 	emit := func(in Input, format string) Obs {
+		in.fill()
 		o := runCase(w, in, format)
 		c.Emit(in, o)
 		c.Count("outcome=" + o.Outcome)
+		c.Count("entry=" + in.Entry)
+		if in.ExtraMethod != "" {
+			c.Count("extraMethod=" + in.Iface + "/" + in.ExtraMethod)
+		}
+		if len(in.Companions) > 0 {
+			c.Count(fmt.Sprintf("companions=%d", len(in.Companions)))
+		}
+		if len(in.History) > 0 {
+			c.Count(fmt.Sprintf("history=%d", len(in.History)))
+		}
 		rov := "-"
 		if in.RevOverride != nil {
 			rov = *in.RevOverride
@@ -929,6 +1296,7 @@ func Run(c *common.Ctx) error {
 									in.Methods = append(in.Methods, methods[c.Rand.Intn(len(methods))])
 								}
 								in.Servers, in.ValidatorImpl = genServers(c, vec), "scripted"
+								decorate(c, &in, all)
 								format := common.MediaJWS
 								if c.Rand.Intn(3) == 0 {
 									format = common.MediaCOSE
@@ -937,6 +1305,96 @@ func Run(c *common.Ctx) error {
 								c.Count(fmt.Sprintf("n=%d", n))
 							}
 						}
+					}
+				}
+			}
+		}
+	}
+	// the dynamic type of the supplied object: every vector over chains up to three x both interfaces x what the method
+	// of the OTHER interface (which the caller did not register the object for) would answer x every action
+	for n := 1; n <= 3; n++ {
+		for _, vec := range vectors(n) {
+			for _, iface := range []string{"validator", "client"} {
+				for _, extra := range extraMethods {
+					for _, action := range []string{"enforce", "log", "skip"} {
+						st := byAction[action][c.Rand.Intn(len(byAction[action]))]
+						in := Input{Vec: vec, ChainLen: n, Scheme: []string{"x509", "signingAuthority"}[c.Rand.Intn(2)], Iface: iface,
+							Level: st.level, RevOverride: st.rev, OtherOverrides: []string{}, PolicyForm: pickForm(c), CallerCtx: pickCtx(c),
+							ValidatorError: c.Rand.Intn(6) == 0, ExtraMethod: extra, DeprecatedCtor: c.Rand.Intn(3) == 0,
+							TimestampingSupplied: c.Rand.Intn(3) == 0, Entry: entries[c.Rand.Intn(2)]}
+						if in.ValidatorError {
+							in.ErrorKind = ErrorKinds[c.Rand.Intn(len(ErrorKinds))]
+						}
+						in.BothSupplied = iface == "validator" && c.Rand.Intn(4) == 0
+						for k := 0; k < n; k++ {
+							in.Methods = append(in.Methods, methods[c.Rand.Intn(len(methods))])
+						}
+						in.Servers, in.ValidatorImpl = genServers(c, vec), "scripted"
+						emit(in, []string{common.MediaJWS, common.MediaCOSE}[c.Rand.Intn(2)])
+						c.Count("dynamic-type-block")
+					}
+				}
+			}
+		}
+	}
+	// one long-lived verifier, several statements, a history: every entry point x every statement about revocation as the
+	// applicable one x a companion statement denoting each action x where the companion lives (the other document under
+	// the SAME name, the other document, the same document under another scope) x which calls came first
+	for rep := 0; rep < 2*reps; rep++ {
+		for _, entry := range entries {
+			for _, st := range all {
+				if entry == "blobGlobal" && st.level == "skip" {
+					continue
+				}
+				for _, compAction := range []string{"enforce", "log", "skip"} {
+					for shape := 0; shape < 6; shape++ {
+						n := 1 + c.Rand.Intn(3)
+						vs := vectors(n)
+						vec := vs[c.Rand.Intn(len(vs))]
+						if c.Rand.Intn(4) != 0 {
+							// mostly chains that must not pass
+							vec = append([]string{}, vec...)
+							vec[c.Rand.Intn(n)] = []string{"revoked", "unknown"}[c.Rand.Intn(2)]
+						}
+						in := Input{Vec: vec, ChainLen: n, Scheme: []string{"x509", "signingAuthority"}[c.Rand.Intn(2)],
+							Iface: []string{"validator", "client"}[c.Rand.Intn(2)], Level: st.level, RevOverride: st.rev,
+							OtherOverrides: otherOverrides(c, st.level, nil), PolicyForm: pickForm(c), CallerCtx: "background",
+							DeprecatedCtor: c.Rand.Intn(4) == 0, Entry: entry, Companions: []string{}}
+						mine, wild := entryDoc(entry), c.Rand.Intn(2) == 0
+						cst := byAction[compAction][c.Rand.Intn(len(byAction[compAction]))]
+						first := "c0"
+						switch shape {
+						case 0, 1, 5:
+							in.Companions = append(in.Companions, companion(&in, otherDoc(mine), "same", wild, cst))
+						case 2:
+							in.Companions = append(in.Companions, companion(&in, otherDoc(mine), "other", wild, cst))
+						case 3:
+							in.Companions = append(in.Companions, companion(&in, mine, "other", wild, cst))
+						case 4:
+							in.Companions = append(in.Companions, companion(&in, otherDoc(mine), "same", wild, cst))
+							in.Companions = append(in.Companions, companion(&in, mine, "other", c.Rand.Intn(2) == 0, all[c.Rand.Intn(len(all))]))
+							// the namesake was only asked whether it skips verification, not used to verify
+							if mine == "blob" {
+								first = "skip:c0"
+							}
+						}
+						switch shape {
+						case 1:
+							in.History = []string{first, "self"}
+						case 4:
+							in.History = []string{first, "c1"}
+						case 5:
+							in.History = []string{"self", first}
+						default:
+							in.History = []string{first}
+						}
+						for k := 0; k < n; k++ {
+							in.Methods = append(in.Methods, methods[c.Rand.Intn(len(methods))])
+						}
+						in.Servers, in.ValidatorImpl = genServers(c, vec), "scripted"
+						emit(in, []string{common.MediaJWS, common.MediaCOSE}[c.Rand.Intn(2)])
+						c.Count("history-block")
+						c.Count(fmt.Sprintf("history-block/shape=%d", shape))
 					}
 				}
 			}
@@ -1034,6 +1492,7 @@ func Run(c *common.Ctx) error {
 					OtherOverrides: []string{}, PolicyForm: "code", CallerCtx: []string{"background", "live"}[c.Rand.Intn(2)],
 					Variant: "ocspChain", ValidatorImpl: "stock", Vec: []string{}, Methods: []string{}, Servers: [][]string{}}
 				w.behave = behave
+				in.fill()
 				o := runCase(w, in, common.MediaJWS)
 				for _, r := range w.lastResults {
 					in.Vec = append(in.Vec, resName[r.Result])
@@ -1130,7 +1589,10 @@ func Run(c *common.Ctx) error {
 			}
 		}
 	}
+	for k := 0; k < w.strayFailures; k++ {
+		c.Count("other-type-failure-after-history")
+	}
 	c.SetExhaustive(true)
-	c.Note("all 340 result vectors over chains of length 1..4 x {x509, signingAuthority} x {validator, deprecated client} x the statements about revocation a user can write (strict / permissive / audit x {no override, enforce, log, skip}, and the level skip: all 13 for chains up to three, one per denoted action for chains of four), next to random overrides of other types, policy built in code or parsed from JSON text; validator-level error on a quarter, and a block of every error kind (%d: plain, empty message, typed nil pointer, context.Canceled / DeadlineExceeded bare, wrapped, joined, from the validator's own timeout / cancellation, url.Error, net timeouts, os.ErrDeadlineExceeded, typed OCSP / chain errors) x caller context {background, live deadline, cancelled, expired} x both interfaces x logging and enforcing statements; random method annotations; per-server results behind every per-certificate result (none, one, several; typed OCSP / CRL / chain errors, all servers timed out, a server that answered among errored ones) at random everywhere and in a block of every vector with an Unknown certificate x every error kind x three shapes; the stock notation-core-go validator (both interfaces) behind an HTTP transport whose per-certificate OCSP responders answer good / revoked / unknown / garbage / 503 / refuse / time out, its report recorded as the vector; half of the fresh verifiers primed with an all-OK answer for the same chain; real JWS/COSE envelopes through verifier.Verify", len(ErrorKinds))
+	c.Note("all 340 result vectors over chains of length 1..4 x {x509, signingAuthority} x {validator, deprecated client} x the statements about revocation a user can write (strict / permissive / audit x {no override, enforce, log, skip}, and the level skip: all 13 for chains up to three, one per denoted action for chains of four), next to random overrides of other types, policy built in code or parsed from JSON text; validator-level error on a quarter, and a block of every error kind (%d: plain, empty message, typed nil pointer, context.Canceled / DeadlineExceeded bare, wrapped, joined, from the validator's own timeout / cancellation, url.Error, net timeouts, os.ErrDeadlineExceeded, typed OCSP / chain errors) x caller context {background, live deadline, cancelled, expired} x both interfaces x logging and enforcing statements; random method annotations; per-server results behind every per-certificate result (none, one, several; typed OCSP / CRL / chain errors, all servers timed out, a server that answered among errored ones) at random everywhere and in a block of every vector with an Unknown certificate x every error kind x three shapes; the stock notation-core-go validator (both interfaces) behind an HTTP transport whose per-certificate OCSP responders answer good / revoked / unknown / garbage / 503 / refuse / time out, its report recorded as the vector; half of the fresh verifiers primed with an all-OK answer for the same chain; the dynamic type of the supplied object (a deprecated client that ALSO has ValidateContext, a context-aware validator that ALSO has Validate, that other method answering all OK / all revoked / an error; a timestamping validator supplied next to it): at random on a quarter of the enumeration and a block of every vector up to three x both interfaces x 3 answers x 3 actions; one long-lived verifier holding several statements in one or BOTH documents (OCI + blob; a namesake of the applicable statement in the other document, other scopes, the wildcard / global statement) saying different things about revocation, with a declared history of earlier calls (Verify / VerifyBlob under the companions or the applicable statement, SkipVerify) before the observed call, through all three entry points (Verify, VerifyBlob by name, VerifyBlob global): a block of 3 entry points x 13 statements x 3 companion actions x 6 placements / orders, and at random on the enumeration; real JWS/COSE envelopes through verifier.Verify / VerifyBlob", len(ErrorKinds))
 	return nil
 }
